@@ -57,6 +57,8 @@ inductive Ev
   | died (aid : Nat)
   /-- op: pool size request (AdjustWorkerPool / UpdateSettings.worker_count / capacity controller) -/
   | requested (n : Nat)
+  /-- op: the held-busy factory is released, its capacity controller answers `n` -/
+  | released (n : Nat)
   /-- op: discard settings replaced -/
   | settings (disc : Option (Nat × Mode))
   | drainReq
@@ -886,7 +888,7 @@ def W.applyOp (w : W) : Op → W
   | .block => { w with armed := true }
   | .release n =>
     if w.blocked then
-      let w := (w.emit (.requested n))
+      let w := (w.emit (.released n))
       let w := { w with blocked := false }
       let w := if w.poolSize != n then w.resizePool n else w
       w.calcRest.afterHandle
